@@ -251,10 +251,11 @@ def run(prog: Program, chk: Check):
     # the service loop hands every completely read frame to process_message
     runf = prog.func(MGR, "MessageManager.run")
     rg = C.build(runf.node)
-    rgs = flow.guard_states(rg)
     rcm = guards.copy_map(runf.node)
     pmn = [n for n in rg.nodes if any(self_call("process_message")(c) for c in node_calls(n))]
     rdn = [n for n in rg.nodes if any(self_call("read_message")(c) for c in node_calls(n))]
+    run_focus = [n.ast for n in pmn + rdn if n.ast is not None]
+    rgs = flow.guard_states(rg, focus=run_focus)
     okrun = len(pmn) == 1 and len(rdn) == 1
     if okrun:
         rcall = [c for c in node_calls(rdn[0]) if self_call("read_message")(c)][0]
@@ -270,7 +271,7 @@ def run(prog: Program, chk: Check):
         # (2) every completely read frame is processed: a way from the read to the next iteration / the exit that skips
         #     process_message is taken only when the read returned falsy
         pm_ids = {pmn[0].id}
-        gsk = flow.guard_states(rg, edge_filter=lambda e: not (e.src in pm_ids and e.kind != "exc"))
+        gsk = flow.guard_states(rg, edge_filter=lambda e: not (e.src in pm_ids and e.kind != "exc"), focus=run_focus)
         lp = next((a for a in ancestors(rcall) if isinstance(a, (ast.For, ast.While))), None)
         skipped_ok = lp is not None
         if lp is not None:
